@@ -7,8 +7,9 @@ from core import Case
 from pyerr import exc_code
 
 PROP = 'C19'
-COQ_TARGETS = ['theories/RouterCacheFacts.vo', 'theories/RouterCacheRenum.vo', 'theories/RouterCacheSweep.vo']
-COQ_IMPORTS = 'From Bac Require Import Base RouterCache.'
+COQ_TARGETS = ['theories/RouterCacheFacts.vo', 'theories/RouterCacheRenum.vo', 'theories/RouterCacheSweep.vo',
+               'theories/RouterNodeFacts.vo']
+COQ_IMPORTS = 'From Bac Require Import Base RouterCache RouterNode.'
 RULE = ('cases: histories over {learn(snet, router, dnets, status), status(snet, router), forget router, forget dnets, '
         'forget dnets of a router, forget with neither (refused), renumber(old, new)} on source nets {None,1,2,3} x routers '
         '{1,2,3} x dnets {10,11,12,13}: every history of length 1 over the 105-op alphabet, of length 2 over its 38-op core (all 105^2 in the thorough tier) plus 3000 seeded pairs, seeded random ones of length '
@@ -16,7 +17,7 @@ RULE = ('cases: histories over {learn(snet, router, dnets, status), status(snet,
         'dumped after EVERY operation (key sets, every router record, every lookup, identity of the record a path leads to). '
         'nsap cases: the same kind of history sent as real IAmRouterToNetwork / NetworkNumberIs / routed NPDUs (same MACs 1..3 on both LANs) plus delete_router_references calls over two '
         'vlan.Networks into a two- or three-adapter NetworkServiceAccessPoint whose adapters sit on link stubs that go down (downstream requests raise) and come back while frames keep arriving; cache dumped after each frame / link change, compared with the model; aged-process scenarios (the real TaskManager\'s same-instant tie-break counter advanced to just before 2^16 / 2^20, then two competing announcements queued back to back in one instant: the newest must win) '
-        'run on the operations the frames stand for.  direct: breadth-first over all DISTINCT reachable cache states to depth '
+        'run on the operations the frames stand for.  nsap-traffic cases: emitted frames (application data handed to next-hop routers, Who-Is-Router), parked requests and cache after every step of histories of announcements (lists mixing remote and attached networks), application requests, routed through-traffic, withdrawals and renumberings, against the node model RouterNode.v.  direct: breadth-first over all DISTINCT reachable cache states to depth '
         '2 (quick) / 4 (thorough) with every op of the alphabet applied to each (= all histories of length <= 3 / 5, since the '
         'predicate depends on the state only), random histories of length 300, and next-hop MAC of frames emitted by the '
         'NSAP after message-driven histories.  non-trivial = at least one operation changes the cache or is refused; '
@@ -375,6 +376,7 @@ class Rig:
         self.lans, self.nodes, self.sniff = {}, {}, {}
         self.adapters = {}
         self.links = {}
+        self.trace = []            # every frame a peer receives, in order of delivery: (lan, mac, pdu)
         self.raised = 0            # handlers left with the link stub's exception
         Link = link_class()
         for name, net in (('A', None if learned_a else start_a), ('B', 2)) + ((('C', 4),) if three else ()):
@@ -390,7 +392,7 @@ class Rig:
             self.sniff[name] = frames
             for mac in (1, 2, 3):
                 peer = Node(Address(mac), lan)
-                peer.response = (lambda pdu, _f=frames, _m=mac: _f.append((_m, pdu)))
+                peer.response = (lambda pdu, _f=frames, _m=mac, _l=name: (_f.append((_m, pdu)), self.trace.append((_l, _m, pdu))))
                 self.nodes[(name, mac)] = peer
         if learned_a and start_a is not None:
             # first learn the number start_a the ordinary way
@@ -507,6 +509,51 @@ class Rig:
                                            None if dnets is None else list(dnets))
         self.drain()
 
+    def emitted(self):
+        """frames the node under test put on its LANs since the trace was cleared, in order:
+        ('send', lan, mac, dnet, tag, sadr_net) application data with a DADR, unicast to router mac;
+        ('whois', lan, dnet) Who-Is-Router-To-Network broadcasts (seen once, at peer 1)"""
+        from bacpypes.npdu import NPDU, WhoIsRouterToNetwork
+        out = []
+        from bacpypes.pdu import Address
+        me = Address(9)
+        for lan, mac, pdu in self.trace:
+            if pdu.pduSource != me:
+                continue
+            n = NPDU()
+            n.decode(_pdu_copy(pdu))
+            unicast = str(pdu.pduDestination) == str(mac)
+            if n.npduNetMessage is None:
+                if n.npduDADR is not None and unicast:
+                    data = bytes(n.pduData)
+                    out.append(('send', lan, mac, n.npduDADR.addrNet, data[2] if len(data) > 2 else 0,
+                                n.npduSADR.addrNet if n.npduSADR is not None else None))
+            elif n.npduNetMessage == 0 and not unicast and mac == 1:
+                w = WhoIsRouterToNetwork()
+                w.decode(n)
+                out.append(('whois', lan, w.wirtnNetwork))
+        return out
+
+    def pending(self):
+        """{dnet: [tags]} of the application requests parked in NetworkServiceAccessPoint.pending_nets"""
+        view = {}
+        for d, npdus in self.nsap.pending_nets.items():
+            view[d] = [(bytes(x.pduData)[2] if len(x.pduData) > 2 else 0) for x in npdus]
+        return view
+
+    def send_request(self, dnet, tag):
+        """the node's own application sends an unconfirmed request (tagged) to station (dnet, 5)"""
+        from bacpypes.pdu import RemoteStation
+        from bacpypes.apdu import UnconfirmedRequestPDU
+        apdu = UnconfirmedRequestPDU(8)
+        apdu.put(tag)
+        apdu.pduDestination = RemoteStation(dnet, 5)
+        try:
+            self.nsap.indication(apdu)
+        except LinkDown:
+            self.raised += 1
+        self.drain()
+
     def next_hop(self, dnet):
         """ask the NSAP to send application data to (dnet, 5): which LAN, which MAC?  None = no
         unicast frame with that DNET left the node (it asks Who-Is-Router instead)"""
@@ -518,6 +565,7 @@ class Rig:
         apdu = UnconfirmedRequestPDU(8)
         apdu.pduDestination = RemoteStation(dnet, 5)
         dead = None
+        parked = self.nsap.pending_nets.pop(dnet, None)      # requests really waiting: set aside
         try:
             self.nsap.indication(apdu)
             self.drain()
@@ -525,8 +573,10 @@ class Rig:
             dead = str(e).split(':')[0]
             self.drain()
         finally:
-            # forget the parked packet so that probing does not change later behaviour
+            # forget the probe's own parked packet so that probing does not change later behaviour
             self.nsap.pending_nets.pop(dnet, None)
+            if parked is not None:
+                self.nsap.pending_nets[dnet] = parked
         hops = set()
         if dead is not None:
             hops.add((dead, -1, 'link-down'))
@@ -551,9 +601,13 @@ def random_msg(rng):
     r = rng.random()
     lan = rng.choice('AB')
     mac = rng.choice([1, 2, 3])
+    if r < 0.52:
+        n = rng.choice([0, 1, 1, 2, 2, 3, 4])
+        # lists also name networks the node is itself attached to (1..4) next to remote ones
+        return ('iam', lan, mac, tuple(rng.choice(DN + DN + [1, 2, 3, 4]) for _ in range(n)))
     if r < 0.6:
-        n = rng.choice([0, 1, 1, 2, 2, 3])
-        return ('iam', lan, mac, tuple(rng.choice(DN) for _ in range(n)))
+        # the node's own application sends to a remote network (tag assigned by position in run_msgs)
+        return ('req', rng.choice(DN))
     if r < 0.66:
         return ('routed', lan, mac, rng.choice(DN + [1, 2, 3, 4]))
     if r < 0.72:
@@ -587,7 +641,7 @@ def random_msgs(rng, n, three, outage):
                 msgs.append(('link', lan, 0))
             continue
         m = random_msg(rng)
-        if three and m[0] != 'nni' and rng.random() < 0.3:
+        if three and m[0] not in ('nni', 'req') and rng.random() < 0.3:
             m = (m[0], 'C') + m[2:]
         msgs.append(m)
     for lan in sorted(down):          # everything comes back at the end
@@ -604,13 +658,20 @@ def run_msgs(msgs, learned_a, start_a=1, three=False, probe=None):
     netA = start_a            # what adapter A believes
     nets = {'B': 2, 'C': 4}
     hist, out, down = [], [], set()
+    ntag = 0
     for m in msgs:
+        rig.pre_pending = rig.pending()
+        del rig.trace[:]
         net = None
         if m[1] in ('A', 'B', 'C'):
             net = netA if m[1] == 'A' else nets[m[1]]
         attached = {netA, 2} | ({4} if three else set())
         extra = None
-        if m[0] == 'iam2':
+        if m[0] == 'req':
+            ntag += 1
+            rig.last_tag = ntag
+            rig.send_request(m[1], ntag)
+        elif m[0] == 'iam2':
             # two competing announcements queued in the same instant: the one queued LAST is the newest.
             # m[6]: the process is aged first (tie-break counter of the scheduler just before 2^k), with
             # nothing scheduled in between
@@ -624,7 +685,11 @@ def run_msgs(msgs, learned_a, start_a=1, three=False, probe=None):
             before = rig.raised
             relay_ok = [rig.links[l].up for l in sorted(rig.links) if l != m[1]]
             rig.send_iam(m[1], m[2], m[3])
-            extra = (relay_ok, 1 if rig.raised > before else 0, NONE if net is None else net)
+            # the handler can also be left by the exception of the ARRIVAL adapter's dead link when it
+            # releases parked requests for a listed network; on_iam models the relay only, so the flag is
+            # compared only when that cannot happen (the cache is compared in any case)
+            if rig.links[m[1]].up or not any(d in rig.pre_pending for d in m[3]):
+                extra = (relay_ok, 1 if rig.raised > before else 0, NONE if net is None else net)
         elif m[0] == 'routed':
             if m[3] not in attached:
                 hist.append(('L', NONE if net is None else net, m[2], (m[3],), 0))
@@ -648,7 +713,8 @@ def run_msgs(msgs, learned_a, start_a=1, three=False, probe=None):
                 hist.append(('R', NONE if netA is None else netA, new))
                 netA = new
             rig.send_nni('A', m[2], new)
-        out.append((len(hist), dump(rig.cache, SNN, AD, DN), extra, m))
+        rig.step_emitted = rig.emitted()
+        out.append((len(hist), dump(rig.cache, SNN, AD, DN), extra, m, rig.step_emitted, rig.pending(), netA))
         if probe is not None:
             if probe(rig, list(hist), netA, set(down), m):
                 break
@@ -669,6 +735,89 @@ AGED_WITNESSES = [
 ]
 
 
+TRAFFIC_WITNESSES = [
+    # (three adapters?, learned A?, frames): the node's EMITTED traffic follows its current knowledge
+    # routed through-traffic whose next hop is a router on the ARRIVAL network goes to that router
+    (False, False, [('iam', 'A', 1, (10,)), ('fwd', 'A', 2, 12, 10)]),
+    (True, False, [('iam', 'B', 3, (11, 12)), ('fwd', 'B', 1, 13, 12), ('fwd', 'C', 1, 10, 12), ('fwd', 'A', 2, 13, 11)]),
+    # an announcement naming an attached network next to remote ones still decides the remote ones
+    (False, False, [('iam', 'A', 1, (10,)), ('iam', 'A', 2, (2, 10)), ('req', 10)]),
+    (True, True, [('iam', 'B', 1, (10, 11)), ('iam', 'B', 3, (11, 4, 1)), ('req', 11), ('req', 10), ('iam', 'C', 2, (12, 2)), ('req', 12)]),
+    # requests parked while no router is known are all released by an announcement listing several networks,
+    # whichever of them have something waiting; later requests go straight out
+    (False, False, [('req', 11), ('iam', 'A', 1, (10, 11)), ('req', 11), ('req', 10)]),
+    (False, False, [('req', 10), ('req', 12), ('req', 10), ('iam', 'B', 2, (11, 12, 13, 10)), ('req', 12), ('req', 13)]),
+    (True, False, [('req', 13), ('iam', 'C', 3, (10, 2, 13)), ('req', 13), ('req', 11), ('iam2', 'A', 1, (12, 11), 2, (11,), 0), ('req', 11)]),
+]
+
+
+def random_traffic(rng, n, three):
+    """frames for the node model: announcements (lists mixing remote and attached nets), application
+    requests, routed through-traffic, routed local traffic, withdrawals, Network-Number-Is"""
+    lans = 'ABC' if three else 'AB'
+    msgs = []
+    for _ in range(n):
+        r = rng.random()
+        lan, mac = rng.choice(lans), rng.choice(AD)
+        if r < 0.30:
+            k = rng.choice([1, 1, 2, 2, 3, 4])
+            msgs.append(('iam', lan, mac, tuple(rng.choice(DN + DN + [1, 2, 3, 4]) for _ in range(k))))
+        elif r < 0.60:
+            msgs.append(('req', rng.choice(DN)))
+        elif r < 0.80:
+            msgs.append(('fwd', lan, mac, rng.choice(DN + [1, 2, 3, 4]), rng.choice(DN)))
+        elif r < 0.86:
+            msgs.append(('routed', lan, mac, rng.choice(DN + [1, 2, 3, 4])))
+        elif r < 0.94:
+            k = rng.random()
+            msgs.append(('del', lan, mac if k < 0.7 else None, None if k < 0.3 else (rng.choice(DN),)))
+        else:
+            msgs.append(('nni', 'A', mac, rng.choice([1, 3, 3])))
+    return msgs
+
+
+def case_traffic(msgs, learned_a, three=False):
+    """emitted frames + parked requests + cache after every step against the node model RouterNode.v"""
+    desc = {'op': 'nsap', 'learned_a': learned_a, 'three': three, 'msgs': [list(m) for m in msgs]}
+    key = ('traffic', learned_a, three, tuple(msgs))
+    try:
+        out, hist, rig, _ = run_msgs(msgs, learned_a, three=three)
+    except RecursionError:
+        raise
+    except Exception as e:
+        return Case('nsap-traffic', '[0]', [1, exc_code(e)], key=key, nontrivial=True, desc=desc)
+    lan_net = lambda lan, netA: (NONE if netA is None else netA) if lan == 'A' else {'B': 2, 'C': 4}[lan]
+    exp, steps, done, ntag = [], [], 0, 0
+    netA_before = 1
+    for n, d, extra, m, em, pend, netA in out:
+        if m[0] == 'req':
+            ntag += 1
+            steps.append('NReq %d %d' % (m[1], ntag))
+        elif m[0] == 'iam':
+            steps.append('NIAm %s %s %s' % (_z(lan_net(m[1], netA)), _z(m[2]), _zl(m[3])))
+        elif m[0] == 'fwd':
+            steps.append('NFwd %s %s %s %s' % (_z(lan_net(m[1], netA)), _z(m[2]), _z(m[3]), _z(m[4])))
+        elif m[0] == 'nni' and n > done:
+            op = hist[done]
+            steps.append('NRenum %s %s' % (_z(op[1]), _z(op[2])))
+        else:
+            steps.append('NOps %s' % coq_hist(hist[done:n]))
+        done = n
+        exp.append(len(em))
+        for e in em:
+            if e[0] == 'send':
+                exp += [1, lan_net(e[1], netA), e[2], e[3], e[4], oz1(e[5])]
+            else:
+                exp += [2, lan_net(e[1], netA), e[2]]
+        for dn in DN:
+            tags = pend.get(dn)
+            exp += ([len(tags)] + list(tags)) if tags else [0]
+        exp += pack(d)
+    ads = ([2] + ([4] if three else []) + [1]) if learned_a else ([1, 2] + ([4] if three else []))
+    expr = 'observe_node %s %s %s (mkN empty %s []) [%s]' % (_zl(SNN), _zl(AD), _zl(DN), _zl(ads), '; '.join(steps))
+    return Case('nsap-traffic', expr, exp, key=key, nontrivial=True, desc=desc)
+
+
 def case_nsap(msgs, learned_a, three=False):
     """expected = dump after each frame / link change; model = dump after the corresponding prefix of
     ops (which ignore the link states)"""
@@ -682,7 +831,7 @@ def case_nsap(msgs, learned_a, three=False):
         # the node raised while handling a frame: the model (which cannot) will disagree
         return Case(kind, '[0]', [1, exc_code(e)], key=('nsap', learned_a, three, tuple(msgs)), nontrivial=True, desc=desc)
     exp, frames, done = [], [], 0
-    for n, d, extra, m in out:
+    for n, d, extra, m, _em, _pend, _netA in out:
         if extra is not None:
             # an announcement: the model is told the state of the OTHER adapters' links; it must give the
             # same cache whatever they are, and the same "handler left by an exception" flag
@@ -754,8 +903,14 @@ def cases(rng, tier):
         out.append(case_nsap(msgs, learned_a=rng.random() < 0.6))
     # outages: the link under one or more adapters of a 2- or 3-port node goes down and comes back while
     # announcements / routed traffic / Network-Number-Is keep arriving
-    for three, learned, msgs in OUTAGE_WITNESSES + AGED_WITNESSES:
+    for three, learned, msgs in OUTAGE_WITNESSES + AGED_WITNESSES + TRAFFIC_WITNESSES:
         out.append(case_nsap(msgs, learned_a=learned, three=three))
+    for three, learned, msgs in TRAFFIC_WITNESSES:
+        if not any(m[0] == 'iam2' for m in msgs):
+            out.append(case_traffic(msgs, learned_a=learned, three=three))
+    for _ in range(2000 if big else 400):
+        three = rng.random() < 0.5
+        out.append(case_traffic(random_traffic(rng, rng.choice([3, 6, 10, 16]), three), learned_a=rng.random() < 0.5, three=three))
     for _ in range(200 if big else 40):
         # random histories in an aged process: pairs of competing same-instant announcements across the boundary
         three = rng.random() < 0.5
@@ -949,6 +1104,57 @@ def nsap_probe(failures, ctx):
         attached = {netA: 'A', 2: 'B'}
         if 'C' in rig.links:
             attached[4] = 'C'
+
+        def want_of(d):
+            w = set()
+            for net_, lan_ in attached.items():
+                a_ = K.get((NONE if net_ is None else net_, d))
+                if a_ is not None:
+                    w.add((lan_, a_))
+            return w
+
+        # ---- emitted traffic of THIS step follows the knowledge (only judged while every link is up)
+        if not down:
+            em = rig.step_emitted
+            pre, post = rig.pre_pending, rig.pending()
+            if m[0] == 'req':
+                d, tag = m[1], rig.last_tag
+                sends = [(e[1], e[2]) for e in em if e[0] == 'send' and e[3] == d and e[4] == tag]
+                want, was = want_of(d), pre.get(d, [])
+                sent_ok = len(sends) == 1 and sends[0] in want and post.get(d, []) == was
+                parked_ok = not sends and post.get(d, []) == was + [tag]
+                ok = sent_ok if (want and not was) else parked_ok if not want else (sent_ok or parked_ok)
+                if not ok:
+                    return fail('nsap-request-not-following-knowledge', dnet=d, sent_to=sends, want=sorted(want),
+                                pending_before=was, pending_after=post.get(d, []), at=step)
+            elif m[0] in ('iam', 'iam2'):
+                lan = m[1]
+                pairs = [(m[2], m[3])] if m[0] == 'iam' else [(m[2], m[3]), (m[4], m[5])]
+                macs = set(a for a, _ in pairs)
+                for d in sorted(set(x for _, ds in pairs for x in ds)):
+                    for tag in pre.get(d, []):
+                        sends = [(e[1], e[2]) for e in em if e[0] == 'send' and e[3] == d and e[4] == tag]
+                        if len(sends) != 1 or sends[0][0] != lan or sends[0][1] not in macs:
+                            return fail('nsap-pending-not-released', dnet=d, tag=tag, sent_to=sends,
+                                        announcer=[lan, sorted(macs)], pending_before=pre.get(d), pending_after=post.get(d, []), at=step)
+                    if post.get(d):
+                        return fail('nsap-pending-not-released', dnet=d, sent_to=[], announcer=[lan, sorted(macs)],
+                                    pending_before=pre.get(d, []), pending_after=post.get(d), at=step)
+            elif m[0] == 'fwd':
+                lan, mac, snet, d = m[1], m[2], m[3], m[4]
+                sends = [(e[1], e[2]) for e in em if e[0] == 'send' and e[3] == d and e[5] == snet]
+                asked = [e for e in em if e[0] == 'whois' and e[2] == d]
+                nets_now = set(attached)
+                if snet in nets_now:
+                    ok = not sends                      # spoofed source: dropped
+                elif d in nets_now:
+                    ok = True                           # last hop: delivered locally without a DADR, not judged here
+                else:
+                    want = want_of(d)
+                    ok = (len(sends) == 1 and sends[0] in want and not asked) if want else not sends
+                if not ok:
+                    return fail('nsap-forward-not-following-knowledge', dnet=d, snet=snet, arrived_on=lan, sent_to=sends,
+                                want=sorted(want_of(d)), who_is_router=[list(e) for e in asked], at=step)
         for d in DN:
             try:
                 hops = rig.next_hop(d)
@@ -983,7 +1189,7 @@ def direct_nsap(rng, n_hist, failures, stats):
     """message-driven histories on 2- and 3-adapter nodes, with and without link outages, judged by
     nsap_probe after every step"""
     evals = steps = outages = raised = 0
-    plan = [(three, True, (learned, msgs)) for three, learned, msgs in AGED_WITNESSES + OUTAGE_WITNESSES]
+    plan = [(three, True, (learned, msgs)) for three, learned, msgs in TRAFFIC_WITNESSES + AGED_WITNESSES + OUTAGE_WITNESSES]
     plan += [(False, False, None)] * n_hist + [(None, True, None)] * n_hist
     for three, outage, fixed in plan:
         if fixed:
